@@ -347,6 +347,46 @@ class Ctx:
             len(scripts), distinct, sum(len(x) for x in scripts), module, cfg))
         return scripts
 
+    def apalache(self, module, init, inv, length, cinit="CInit", next_="Next", expect="ok", timeout=900):
+        """Leg M, unbounded part: one obligation of an inductive-invariant argument discharged by Apalache (symbolic,
+        SMT) on spec/apalache/<module>.tla (which EXTENDS a module of spec/).  expect='ok': no error up to `length`;
+        expect='violation': the obligation MUST fail (non-vacuity / sensitivity).  Anything else is unresolved."""
+        with _mdir_lock:
+            self._mdir += 1
+            wd = os.path.join(self.scratch, "apa%d" % self._mdir)
+        os.makedirs(wd)
+        for d in (SPEC, os.path.join(SPEC, "apalache")):
+            for f in os.listdir(d):
+                if f.endswith(".tla"):
+                    shutil.copyfile(os.path.join(d, f), os.path.join(wd, f))
+        cmd = ["apalache-mc", "check", "--cinit=" + cinit, "--init=" + init, "--inv=" + inv, "--next=" + next_,
+               "--length=%d" % length, "--out-dir=" + os.path.join(wd, "out"), module + ".tla"]
+        t = time.time()
+        try:
+            p = subprocess.run(cmd, cwd=wd, stdout=subprocess.PIPE, stderr=subprocess.STDOUT, text=True, timeout=timeout,
+                               errors="replace")
+            out = p.stdout
+        except subprocess.TimeoutExpired:
+            raise Unresolved("apalache timeout: %s init=%s inv=%s" % (module, init, inv))
+        m = re.search(r"The outcome is: (\w+)", out)
+        outcome = m.group(1) if m else "none"
+        kind = {"NoError": "ok", "Error": "violation"}.get(outcome, "error")
+        self.legs.append({"leg": "M-inductive", "tool": "apalache", "module": module, "init": init, "inv": inv,
+                          "length": length, "cinit": cinit, "expect": expect, "kind": kind,
+                          "wall_s": round(time.time() - t, 1)})
+        self.log("apalache %s init=%s inv=%s length=%d cinit=%s -> %s in %.1fs" % (module, init, inv, length, cinit, kind, time.time() - t))
+        shutil.rmtree(os.path.join(wd, "out"), ignore_errors=True)
+        if kind == "error":
+            print(out[-3000:])
+            raise Unresolved("apalache failed on %s (init=%s inv=%s)" % (module, init, inv))
+        if kind != expect:
+            if expect == "ok":
+                print(out[-3000:])
+                raise Unresolved("inductive obligation not discharged: %s init=%s inv=%s (a statement about the model, "
+                                 "not a verdict about the code)" % (module, init, inv))
+            raise Unresolved("obligation that must fail was discharged: %s init=%s inv=%s cinit=%s" % (module, init, inv, cinit))
+        return kind
+
     def validate_trace(self, module, cfg, trace_path, label="", timeout=900, dfs=True, count_traces=None):
         """Leg T. Returns (accepted, info). info has line (first line that cannot be consumed) or
         violated invariant + line."""
